@@ -37,6 +37,8 @@ def render_topology(case):
                            'con_in': _opt(e['ci']), 'con_out': _opt(e['co'])}
             if e.get('ai', 0) not in (0, NONE):
                 d['params']['att_in'] = e['ai'] / UDB
+            if e.get('o') == 'pmd':                            # user PMD coefficient (library SSMF: 1.265e-15)
+                d['params']['pmd_coef'] = 3e-15
             if e.get('ct'):                                    # loss coefficient given per frequency (MHz, mdB/km)
                 d['params']['loss_coef'] = {'value': [v / 1000 for _, v in e['ct']],
                                             'frequency': [f * 1e6 for f, _ in e['ct']]}
@@ -123,7 +125,7 @@ def project_network(net, input_names=None, unit=100.0):
         t = type(n).__name__
         r = dict(name=n.uid, type=t, succ=[idx[id(x)] for x in net.successors(n)],
                  pred=[idx[id(x)] for x in net.predecessors(n)], len=0, coef=NONE, variety='', conIn=NONE, conOut=NONE,
-                 attIn=NONE, loss=0, sub=[], origin='', coefTab=[])
+                 attIn=NONE, loss=0, sub=[], origin='', coefTab=[], opt='')
         if isinstance(n, E.Fiber):
             p = n.params
             r['len'] = int(round(p.length * unit))
@@ -275,7 +277,7 @@ def exc_text(e):
 def reference_propagation(net, req, equipment, src=None, dst=None):
     """propagate the reference channel set (the req returned by designed_network) with the real propagate() between two
     transceivers of the designed network; returns the projected result vector (micro-dB): GSNR, OSNR and received
-    power of the first / middle / last channel, and (source uid, destination uid, number of elements crossed)"""
+    power, PMD, CD, latency and PDL of the first / middle / last channel, and (source uid, destination uid, number of elements crossed)"""
     import networkx as nx
     import numpy as np
     from gnpy.core import elements as E
@@ -311,7 +313,12 @@ def reference_propagation(net, req, equipment, src=None, dst=None):
         si = propagate(path, req, equipment)
     n = si.number_of_channels
     pick = sorted({0, n // 2, n - 1})
+    def clip(x):
+        return int(max(-2e9, min(2e9, round(x))))
     with np.errstate(divide='ignore', invalid='ignore'):
         vec = [udb(float(si.gsnr_db[k])) for k in pick] + [udb(float(si.snr_lin_db[k])) for k in pick] + \
               [udb(float(watt2dbm(si.pch[k]))) for k in pick]
+        # accumulated linear impairments: PMD in attoseconds, CD in 1e-6 of the SI unit, latency in ns, PDL in micro-dB
+        vec += [clip(float(si.pmd[k]) * 1e18) for k in pick] + [clip(float(si.chromatic_dispersion[k]) * 1e6) for k in pick] + \
+               [clip(float(si.latency[k]) * 1e9) for k in pick] + [udb(float(si.pdl[k])) for k in pick]
     return vec, (path[0].uid, path[-1].uid, len(path))
